@@ -39,7 +39,7 @@ func init() {
 				{Name: "frames", Variant: "plain", Cases: nf, Run: c04frameCase, CaseTimeout: 120 * time.Second,
 					Required: []string{"frames", "kind_error", "kind_rows", "kind_prepared", "kind_event", "kind_schema_change", "kind_supported", "kind_auth", "rows_scanned", "cells_compared", "null_cells", "warnings_and_payload_together", "compressed_frames", "consumer_scan", "consumer_scanner", "consumer_mapscan", "consumer_slicemap", "scanner_rows_failed_then_continued"}},
 				{Name: "sessions", Variant: "race", Cases: ns, Run: c04sessionCase, CaseTimeout: 120 * time.Second,
-					Required: []string{"sessions", "session_errors_compared", "session_rows_compared", "session_skipmeta", "session_prepared_compared", "session_trace_ids", "session_warnings", "session_payloads"}},
+					Required: []string{"sessions", "session_errors_compared", "session_rows_compared", "session_skipmeta", "session_prepared_compared", "session_trace_ids", "session_warnings", "session_payloads", "session_has_more_pages_followed", "session_empty_page_with_more_pages"}},
 			}
 		},
 	})
@@ -263,6 +263,7 @@ func c04cell(f *gform, t *cqlref.Type, v cqlref.Val, got reflect.Value, proto in
 }
 
 type c04rows struct {
+	consumed bool // c04consume read the result to its end (it gives up early when a column has no usable destination)
 	cols    []c04col
 	vals    [][]cqlref.Val // [row][col]
 	cells   [][][]byte
@@ -602,6 +603,7 @@ func c04consume(c *runner.Ctx, r *rand.Rand, it *gocql.Iter, rs *c04rows, consum
 	if n := gocql.VerifIterUnread(it); n != 0 {
 		return fmt.Sprintf("after all %d rows were read through %s, %d bytes of the body are unread", len(rs.vals), consumer, n)
 	}
+	rs.consumed = true
 	return ""
 }
 
